@@ -13,10 +13,10 @@ TRUSTED = [
     "Twisted: connectionLost with ConnectionDone after the client's own loseConnection, clientConnectionFailed on refusal, callLater",
 ]
 ASSUMPTIONS = ["a script whose command raises leaves the chain failed and the connection open: vncdo then only ends by --timeout (never with status 0)"]
-RULE = ("scripts of 1..6 commands x one fault at a random point of the conversation: connection refused, authentication failed (3.3 / 3.8 with reason), unknown server message, "
-        "clean close by the server before / in the middle of / after the script, reset, silence - each with and without --timeout T; non-trivial = distinct (script, fault, timeout)")
+RULE = ("scripts of 1..6 commands x one fault at a random point of the conversation: connection refused, session refused by the server (3.3 / 3.7 / 3.8, reason possibly empty), authentication failed (3.3 / 3.8 with reason), unknown server message, "
+        "clean close by the server before / in the middle of (also half way through an update, with a capture waiting) / after the script, reset (also while vncdo's own close is in progress), silence - each with and without --timeout T; non-trivial = distinct (script, fault, timeout)")
 
-FAULTS = ["none", "refused", "auth-failed", "unknown-msg", "lose-clean", "lose-error", "silent"]
+FAULTS = ["none", "refused", "auth-failed", "server-refuses", "unknown-msg", "lose-clean", "lose-clean", "lose-error", "silent"]
 
 
 def play(r, spec, fault, at):
@@ -25,6 +25,38 @@ def play(r, spec, fault, at):
         res = run_impl(spec)
         # with a timeout pending, let the timers run out
         return res
+    if fault == "server-refuses":
+        # the server refuses the session in the handshake: RFB 3.3 security word 0, or zero security types (3.7 / 3.8),
+        # followed by a reason string - which may be EMPTY
+        for name, (w, h, px) in spec.images.items():
+            make_image(name, w, h, px)
+        v = Vncdo(spec.words, delay=spec.delay, warp=spec.warp, timeout=spec.timeout)
+        res = {"events": [], "error": v.error, "connects": len(v.connects)}
+        try:
+            v.connect()
+            ver = r.choice([b"003", b"007", b"008"])
+            reason = bytes(r.randrange(32, 127) for _ in range(r.choice([0, 0, 7])))
+            data = b"RFB 003." + ver + b"\n" + (struct.pack("!I", 0) if ver == b"003" else bytes([0])) + struct.pack("!I", len(reason)) + reason
+            parts = [data] if r.random() < .6 else [data[:13], data[13:]]
+            spec.events = []
+            for part in parts:
+                tk = v.feed(part)
+                st = v.status()
+                res["events"].append(("recv", tk, {"status": st[0], "stopped": st[1], "pending_stop": v.pending_stop(), "now": 0}))
+                spec.events.append(("recv", part))
+            if v.proto.transport.closed:
+                tk = v.lose(True)
+                st = v.status()
+                res["events"].append(("lose-clean", tk, {"status": st[0], "stopped": st[1], "pending_stop": v.pending_stop(), "now": 0}))
+                spec.events.append(("lose", True))
+            while v.reactor.getDelayedCalls() and v.reactor.stopped_at is None:
+                t, tk = v.fire()
+            res["final_status"] = v.status()
+            res["zlog"] = []
+            res["auth"] = True
+            return res
+        finally:
+            v.close()
     if fault == "auth-failed":
         # the server asks for VNC authentication and rejects the response
         for name, (w, h, px) in spec.images.items():
@@ -70,6 +102,15 @@ def run(ctx):
             spec.timeout = r.choice([None, None, 0.5, 2.0, 5.0])
             fault = r.choice(FAULTS)
             at = r.randint(0, 6)
+            if si % 6 == 1:
+                # the last command waits for an update when the server goes away - after it has already sent some
+                spec = build_session(r, kinds=["capture", "key"], ncmd=r.randint(1, 2))
+                spec.words += ["capture", "last.png"]
+                spec.timeout = r.choice([None, 2.0])
+                spec.unsolicited = 0.7
+                spec.midloss = 0.35
+                fault, at = r.choice(["lose-clean", "lose-clean", "lose-error"]), r.randint(2, 6)
+            spec.close_reset = 0.25
             res = play(r, spec, fault, at)
             tl = [t for e in res["events"] for t in e[1]]
             try:
@@ -91,14 +132,20 @@ def run(ctx):
                      key=(repr(spec.words), fault, at, spec.timeout))
             ctx.count("fault_" + fault)
             ctx.count("status_%s" % st)
+            if "raise:spin" in tl:
+                ctx.violate("hang", dict(rp, observed="dataReceived never returned (cut off by the harness' alarm): the process would hang, and --timeout could not fire because the reactor is blocked"))
+                continue
             lost_idx = next((i for i, k in enumerate(kinds) if k.startswith("lose") or k == "connectfailed"), None)
-            close_before_lost = completed and (lost_idx is None or any("close" in e[1] for e in res["events"][:lost_idx + 1]))
+            # vncdo's own close happens BEFORE the transport reports the loss (a "close" that is a reaction to the loss is not vncdo closing the connection)
+            close_before_lost = completed and (lost_idx is None or any("close" in e[1] for e in res["events"][:lost_idx]))
             # status 0 only if the script was carried out completely and vncdo itself then closed the connection
             if st == 0 and not (completed and close_before_lost and "lose-clean" in kinds):
                 ctx.violate("status-zero-lie", dict(rp, observed="exit status 0 although the script was not completed / the connection was not closed by vncdo (events %r)" % kinds[-6:]))
             if st in (None, 1) and (lost_idx is not None):
                 ctx.violate("no-status", dict(rp, observed="the connection is gone but no exit status was set (exit_status=%r)" % st))
-            if fault in ("refused", "auth-failed") and st == 0:
+            if fault in ("auth-failed", "server-refuses") and (st in (None, 1) or "close" not in tl):
+                ctx.violate("no-status", dict(rp, observed="the server refused / failed the authentication but vncdo did not close the connection and set a status (exit_status=%r, trace %r)" % (st, tl[-4:])))
+            if fault in ("refused", "auth-failed", "server-refuses") and st == 0:
                 ctx.violate("status-zero-lie", dict(rp, observed="fault %s ended with exit status 0" % fault))
             # --timeout T bounds the run: the reactor is stopped at virtual time <= T + 0.1 s
             if spec.timeout is not None:
